@@ -19,8 +19,8 @@ INFO = {
         "sx_destroy replaced by its contract; "
         "c20_destroy_step: the real sx_destroy body against that contract for an arbitrary root node with opaque "
         "owned children (structural induction: holds for trees of any size); "
-        "LIMIT: the list layer is decided only for texts of length <= 2 (quick) / <= 3 (thorough: 5.8 M SAT "
-        "variables, 30 M clauses, 16 min, needs > 12 GB). The call tree of the two mutually recursive functions is "
+        "LIMIT: the list layer is decided only for texts of length <= 2 (quick) / <= 3 (thorough: 8.1 M SAT "
+        "variables, 9.5 min, needs more than 12 GB). The call tree of the two mutually recursive functions is "
         "unrolled exponentially because text positions are symbolic; length 4 was not attempted. Nested lists, "
         "lists with two or more elements and whitespace between two elements need >= 4 octets and are therefore "
         "NOT decided."),
@@ -81,8 +81,9 @@ def token_inst(n, op):
 
 
 def list_inst(n, alpha):
-    # LEN 3 is the largest feasible length: 5.8 M variables / 30 M clauses, about 9 GB resident (more
-    # while the formula is built), 16 min with cadical. LEN 4 was not attempted (estimated > 20 M variables).
+    # LEN 3 is the largest feasible length: 554 k SSA steps, 8.1 M variables, 9.5 min with cadical, about 9 GB
+    # resident (the 12 GB address-space limit is not enough while the formula is built: mem_gb 34).
+    # LEN 4 was not attempted (estimated > 25 M variables).
     big = n >= 3
     return mk("c20_list_a%d_len%d" % (alpha, n), "C20/c20_list.c", U,
               {"LEN": n, "ALPHA_ID": alpha, "NNODES": n + 1, "NPAIRS": n, "NSYMS": n},
